@@ -20,6 +20,8 @@ package serverless
 // fetchCP (captures f)
 //@ func FeedLog$1
 //@   returns (cp, err)
+//@   // the closure hands on ITS OWN context, the one of the feed cycle (not a longer-lived one from outside)
+//@   atcall[C19.ctx,C13.ctx] $dynamic: $arg1 == ctx
 //@   requires f != nil
 //@   modifies heap
 //@   ensures[C19.s] true
@@ -27,6 +29,9 @@ package serverless
 // fetchProof (captures h, f, l): the proof builder is an external library (assumed not to panic)
 //@ func FeedLog$2
 //@   returns (p, err)
+//@   // the closure hands on ITS OWN context, the one of the feed cycle (not a longer-lived one from outside)
+//@   atcall[C19.ctx,C13.ctx] NewProofBuilder: $arg1 == ctx
+//@   atcall[C19.ctx,C13.ctx] ConsistencyProof: $arg2 == ctx
 //@   requires f != nil
 //@   modifies heap
 //@   ensures[C19.s] err != nil ==> p == nil
@@ -51,6 +56,8 @@ package serverless
 // returned fetcher (captures root, get)
 //@ func newFetcher$3
 //@   returns (b, err)
+//@   // the closure hands on ITS OWN context, the one of the feed cycle (not a longer-lived one from outside)
+//@   atcall[C19.ctx,C13.ctx] $dynamic: $arg1 == ctx
 //@   requires root != nil && get != nil
 //@   modifies heap
 //@   ensures[C19.s] true
